@@ -125,6 +125,55 @@ Theorem C21_install_deny_monotone : forall i xp xs, inst_valid i = true ->
 Proof. exact install_deny_monotone. Qed.
 Print Assumptions C21_install_deny_monotone.
 
+(* What `an alternative matches` means in C21_connect_spec: the conjunction of ALL its atomic constraints - names,
+   attributes, snap types, snap ids, publisher ids (with $PLUG_PUBLISHER_ID / $SLOT_PUBLISHER_ID), on-classic,
+   on-core-desktop and the device scope (on-store / on-brand / on-model) *)
+Theorem C21_plug_alternative_atoms : forall c a, check_plug_conn1 c a = true <->
+  check_names (a_plug_names a) (f_iface (k_plug c)) (f_name (k_plug c)) = true /\
+  check_names (a_slot_names a) (f_iface (k_slot c)) (f_name (k_slot c)) = true /\
+  attrs_check (Some (conn_ctx c)) (a_plug_attrs a) (side_attrs (k_plug c)) = true /\
+  attrs_check (Some (conn_ctx c)) (a_slot_attrs a) (side_attrs (k_slot c)) = true /\
+  check_snap_type (f_type (k_slot c)) (a_slot_snap_types a) = true /\
+  check_id (od_snap_id (slot_decl (k_decls c))) (a_slot_snap_ids a) no_special = true /\
+  check_id (od_pub_id (slot_decl (k_decls c))) (a_slot_pub_ids a)
+           (one_special (bs "$PLUG_PUBLISHER_ID") (od_pub_id (plug_decl (k_decls c)))) = true /\
+  check_on_classic (k_env c) (a_on_classic a) = true /\
+  check_on_core_desktop (k_env c) (a_on_core_desktop a) = true /\
+  check_device_scope (k_env c) (a_device a) = true.
+Proof. exact plug_conn1_atoms. Qed.
+Print Assumptions C21_plug_alternative_atoms.
+
+Theorem C21_slot_alternative_atoms : forall c a, check_slot_conn1 c a = true <->
+  check_names (a_plug_names a) (f_iface (k_plug c)) (f_name (k_plug c)) = true /\
+  check_names (a_slot_names a) (f_iface (k_slot c)) (f_name (k_slot c)) = true /\
+  attrs_check (Some (conn_ctx c)) (a_plug_attrs a) (side_attrs (k_plug c)) = true /\
+  attrs_check (Some (conn_ctx c)) (a_slot_attrs a) (side_attrs (k_slot c)) = true /\
+  check_snap_type (f_type (k_slot c)) (a_slot_snap_types a) = true /\
+  check_snap_type (f_type (k_plug c)) (a_plug_snap_types a) = true /\
+  check_id (od_snap_id (plug_decl (k_decls c))) (a_plug_snap_ids a) no_special = true /\
+  check_id (od_pub_id (plug_decl (k_decls c))) (a_plug_pub_ids a)
+           (one_special (bs "$SLOT_PUBLISHER_ID") (od_pub_id (slot_decl (k_decls c)))) = true /\
+  check_on_classic (k_env c) (a_on_classic a) = true /\
+  check_on_core_desktop (k_env c) (a_on_core_desktop a) = true /\
+  check_device_scope (k_env c) (a_device a) = true.
+Proof. exact slot_conn1_atoms. Qed.
+Print Assumptions C21_slot_alternative_atoms.
+
+(* the on-core-desktop atom: `on-core-desktop: b` holds exactly when b is the system's core-desktop flag (classic: false,
+   core: false, core desktop: true); being on classic makes no constraint hold; the monitor's own statement agrees *)
+Theorem C21_on_core_desktop_atom : forall e b, check_on_core_desktop e (Some b) = Bool.eqb b (e_core_desktop e).
+Proof. exact on_core_desktop_atom. Qed.
+Print Assumptions C21_on_core_desktop_atom.
+
+Theorem C21_on_core_desktop_classic_irrelevant : forall cl cl' os os' cd m st c,
+  check_on_core_desktop (mkEnv cl os cd m st) c = check_on_core_desktop (mkEnv cl' os' cd m st) c.
+Proof. exact on_core_desktop_classic_irrelevant. Qed.
+Print Assumptions C21_on_core_desktop_classic_irrelevant.
+
+Theorem C21_core_desktop_ref_agrees : forall e c, core_desktop_ref e c = check_on_core_desktop e c.
+Proof. exact core_desktop_ref_eq. Qed.
+Print Assumptions C21_core_desktop_ref_agrees.
+
 (* A plug-names / slot-names regexp (restricted to a top-level alternation of literals, not starting with `$`) matches
    exactly when the WHOLE name equals one of the alternatives: `led|buzzer` matches neither `led-admin` nor `xbuzzer`. The
    same function decides literal attribute-value regexps. (The monitor uses a second, independently written matcher,
